@@ -47,6 +47,9 @@ public:
    */
   double Pij(size_t i, size_t j) const override
   {
+    // A chain with a single state stays in it, whatever its (then meaningless) autocorrelation parameter.
+    if (getNumberOfStates() == 1)
+      return 1.;
     return (i == j) ? vAutocorrel_[i] : (1 - vAutocorrel_[i]) / static_cast<double>(getNumberOfStates() - 1);
   }
 
